@@ -242,7 +242,7 @@ def check_demux(case, opts, fails):
         fails.append(("C04", args, f"input {rc['input']} != output {rc['output']} + reported filter categories {rc['filtered']}"))
     # routing by the last match: compare with {adapter_name} renaming in a plain run
     plain = os.path.join(d, "plain.1.fq")
-    args2 = ad + opts + extra + ["--rename", "{id} {adapter_name}", "-o", plain] + (["-p", os.path.join(d, "plain.2.fq")] if paired else []) + case.inputs()
+    args2 = ad + opts + ["--rename", "{id} {adapter_name}", "-o", plain] + (["-p", os.path.join(d, "plain.2.fq")] if paired else []) + case.inputs()
     code2, _, _ = run(args2)
     if code2 == 0 and not combinatorial:
         want = {}
